@@ -98,26 +98,6 @@ pub broadcast axiom fn axiom_qt_eq(a: QueryType, b: QueryType) ensures #[trigger
 pub broadcast axiom fn axiom_rt_eq(a: RecordType, b: RecordType) ensures #[trigger] a.eq_spec(&b) == (a == b);
 pub broadcast axiom fn axiom_qt_obeys() ensures #[trigger] <QueryType as vstd::std_specs::cmp::PartialEqSpec>::obeys_eq_spec();
 pub broadcast axiom fn axiom_rt_obeys() ensures #[trigger] <RecordType as vstd::std_specs::cmp::PartialEqSpec>::obeys_eq_spec();
-proof fn lemma_tree_wf_root(zr: ZoneRecords)
-    requires tree_wf(zr)
-    ensures node_ok(zr, zr.nsdname.labels@)
-{
-    assert(node_at(zr, Seq::<Label>::empty()) == Some(zr));
-    assert(Seq::<Label>::empty() + zr.nsdname.labels@ =~= zr.nsdname.labels@);
-}
-// a proper suffix of a well-formed name's labels is the label sequence of a well-formed name
-proof fn lemma_suffix_wf(full: Seq<Label>, k: int)
-    requires shape_ok(full), all_labels_wf(full), labels_sum(full) <= 255, 0 <= k < full.len()
-    ensures shape_ok(full.subrange(k, full.len() as int)), all_labels_wf(full.subrange(k, full.len() as int)),
-            labels_sum(full.subrange(k, full.len() as int)) <= 255, full.len() <= 255
-{
-    let suf = full.subrange(k, full.len() as int);
-    assert(full =~= full.subrange(0, k) + suf);
-    lemma_labels_sum_concat(full.subrange(0, k), suf);
-    lemma_labels_sum_lower(full);
-    assert forall|i: int| 0 <= i < suf.len() implies (#[trigger] suf[i]).wf() by { assert(suf[i] == full[k + i]); }
-    assert forall|i: int| 0 <= i < suf.len() - 1 implies (#[trigger] suf[i]).v().len() > 0 by { assert(suf[i] == full[k + i]); }
-}
 // R15
 #[verifier::external_body]
 fn shim_zrs_to_rrs(zrs: &Vec<ZoneRecord>, name: &DomainName) -> (r: Vec<ResourceRecord>)
